@@ -12,8 +12,13 @@ RULE = ('case = (device profile, operation, argument record). Operations: the 19
         'attributes, mixed text) and passed as str and as lxml elements; enumerated arguments inside and outside their sets; a '
         'separate invalid stream (NUL, C0 controls, U+FFFE/FFFF, lone surrogates, non-strings, bad names, ill-formed or wrongly '
         'rooted documents). Escaping: single text/attribute values compared byte-exactly with lxml. distinct = distinct case; '
-        'non-trivial = at least one caller string or fragment is carried.')
-ASSUMES = ['the server advertises every capability (gating is C09); with-defaults lists the four RFC 6243 modes',
+        'non-trivial = at least one caller string or fragment is carried. Vendor block (tools/harness/vendorops.py): case = (profile that ships the '
+        'class, vendor Manager method, argument record) for the 30 classes of third_party/*/rpc.py; the unit tests\' and examples\' own calls and '
+        'every switch corner as fixed cases, then generated records: the same string grammar for command/config/file/comment text and for '
+        'format/action/rollback attributes, config as str / list of str / lxml element, caller documents as str and element (un-namespaced, default, '
+        'prefixed), junos timeouts as int and as str (incl. non-numbers), plus an invalid stream (NUL/C0/U+FFFE/FFFF/surrogates in one string argument).')
+ASSUMES = ['vendor classes: Python verdicts int(timeout) (junos commit) and bool(comment.strip()) (sros commit) are inputs of the model; caller fragments of vendor calls do not use the base namespace (that class is the open finding envelope_namespace_binding_shadowed, one explicit huawei case); junos timeouts within +-10^12 (binary64 division is exact there)',
+           'the server advertises every capability (gating is C09); with-defaults lists the four RFC 6243 modes',
            'lxml verdicts on element names are oracle inputs (catalogue); documents are parsed for the model by the independent reader',
            'namespace declarations (prefix bindings) are not part of the compared tree: an XPath filter with its own nsmap is compared on the select string only']
 TRUSTED = ['modelled, not verified: libxml2 serialiser/parser beyond the escaping function, expat (independent reader)']
